@@ -304,7 +304,7 @@ ENTRY_STATES = [
     "absent", "raw_valid", "raw_valid_gpg_shape", "gpg_valid", "gpg_valid_see_also", "other_payload", "misfiled",
     "bitflip", "truncated", "upper_sig", "extra_field", "nondict", "alt_upper", "alt_space", "alt_0x",
     "alt_inner_space", "alt_nonascii_digit", "alt_mixed_case", "gpg_bad_header", "gpg_other_payload", "gpg_bad_see_also",
-    "gpg_empty_header", "zero_sig",
+    "gpg_empty_header", "zero_sig", "bare_sig_string", "sig_in_list",
 ]
 
 
@@ -348,6 +348,10 @@ def make_entry(rng, state: str, k: Key, data: bytes, gpg: bool, other: Key):
     if state == "extra_field":
         valid["extra"] = "x"
         return k.hex, valid
+    if state == "bare_sig_string":      # the signature value itself where an entry (a dict) belongs
+        return k.hex, valid["signature"]
+    if state == "sig_in_list":
+        return k.hex, [valid]
     if state == "nondict":
         return k.hex, rng.choice([valid["signature"], [valid], None, 1, True, 1.5, [valid["signature"]]])
     if state == "alt_upper":
